@@ -1706,7 +1706,10 @@ impl TestTextSelection for TextSelection {
         //note: at this level we deal with two singletons and there is no different between the *All variants
         match operator {
             TextSelectionOperator::Equals { negate: false, .. }
-            | TextSelectionOperator::InSet { negate: false, .. } => self == reftextsel,
+            | TextSelectionOperator::InSet { negate: false, .. } => {
+                //compare the ranges only, a bound and an unbound selection of the same range are equal
+                self.begin == reftextsel.begin && self.end == reftextsel.end
+            }
             TextSelectionOperator::Overlaps { negate: false, .. } => {
                 //item must be equal overlap with any of the items in the other set
                 (reftextsel.begin >= self.begin && reftextsel.begin < self.end)
